@@ -679,6 +679,139 @@ Proof.
 Qed.
 
 (* ------------------------------------------------------------------ *)
+(** * 8. [lf_lines]: split at line feeds only *)
+
+Lemma lf_split_all_nonnil : forall sep s, split_all sep s <> [].
+Proof.
+  intros sep s. destruct s as [|c r]; cbn [split_all].
+  - discriminate.
+  - destruct (beqb c sep); [discriminate|].
+    destruct (split_all sep r); discriminate.
+Qed.
+
+Lemma lf_split_all_app_sep : forall sep a b,
+  ~ In sep a -> split_all sep (a ++ sep :: b) = a :: split_all sep b.
+Proof.
+  intros sep a. induction a as [|x a' IH]; intros b Hnin.
+  - cbn [app split_all]. rewrite beqb_refl. reflexivity.
+  - cbn [app split_all].
+    assert (Hx : beqb x sep = false).
+    { apply beqb_neq. intro Hx. apply Hnin. left. exact Hx. }
+    rewrite Hx, IH; [reflexivity|].
+    intro Hin. apply Hnin. right. exact Hin.
+Qed.
+
+Lemma lf_split_all_snoc_sep : forall sep s,
+  split_all sep (s ++ [sep]) = split_all sep s ++ [[]].
+Proof.
+  intros sep s. induction s as [|x r IH].
+  - cbn [app split_all]. rewrite beqb_refl. reflexivity.
+  - cbn [app split_all]. destruct (beqb x sep).
+    + rewrite IH. reflexivity.
+    + rewrite IH. destruct (split_all sep r) as [|h t] eqn:E.
+      * contradiction (lf_split_all_nonnil sep r E).
+      * reflexivity.
+Qed.
+
+Lemma lf_split_all_no_sep : forall sep s l, In l (split_all sep s) -> ~ In sep l.
+Proof.
+  intros sep s. induction s as [|x r IH]; intros l Hin.
+  - cbn [split_all] in Hin. destruct Hin as [E | []]. subst l. intros [].
+  - cbn [split_all] in Hin. destruct (beqb x sep) eqn:Ex.
+    + destruct Hin as [E | Hin]; [subst l; intros [] | exact (IH l Hin)].
+    + destruct (split_all sep r) as [|h t] eqn:E.
+      * contradiction (lf_split_all_nonnil sep r E).
+      * destruct Hin as [El | Hin].
+        -- subst l. intros [Hx | Hh].
+           ++ apply beqb_neq in Ex. apply Ex. exact Hx.
+           ++ exact (IH h (or_introl eq_refl) Hh).
+        -- apply IH. right. exact Hin.
+Qed.
+
+Lemma lf_join_split_all : forall sep s, join [sep] (split_all sep s) = s.
+Proof.
+  intros sep s. induction s as [|x r IH].
+  - reflexivity.
+  - cbn [split_all]. destruct (split_all sep r) as [|h t] eqn:E.
+    + contradiction (lf_split_all_nonnil sep r E).
+    + destruct (beqb x sep) eqn:Ex.
+      * apply beqb_eq in Ex. subst x.
+        change (join [sep] ([] :: h :: t)) with ([] ++ [sep] ++ join [sep] (h :: t)).
+        rewrite IH. reflexivity.
+      * destruct t as [|h' t'].
+        -- cbn [join] in IH |- *. rewrite IH. reflexivity.
+        -- change (join [sep] ((x :: h) :: h' :: t')) with (x :: (h ++ [sep] ++ join [sep] (h' :: t'))).
+           change (join [sep] (h :: h' :: t')) with (h ++ [sep] ++ join [sep] (h' :: t')) in IH.
+           rewrite IH. reflexivity.
+Qed.
+
+Lemma lf_lines_nil : lf_lines [] = [].
+Proof. reflexivity. Qed.
+
+(* one line and its line feed; the line is kept whole, carriage returns
+   included *)
+Lemma lf_lines_app_nl : forall l r,
+  ~ In c_nl l -> lf_lines (l ++ c_nl :: r) = l :: lf_lines r.
+Proof.
+  intros l r Hnin. unfold lf_lines. rewrite (lf_split_all_app_sep c_nl l r Hnin).
+  destruct (split_all c_nl r) as [|h t] eqn:E.
+  - contradiction (lf_split_all_nonnil c_nl r E).
+  - change (last (l :: h :: t) []) with (last (h :: t) []).
+    destruct (is_nil (last (h :: t) [])); reflexivity.
+Qed.
+
+Lemma lf_lines_nl : forall r, lf_lines (c_nl :: r) = [] :: lf_lines r.
+Proof. intro r. exact (lf_lines_app_nl [] r (fun H => H)). Qed.
+
+(* a text that ends in a line feed: the pieces [strings.Split] gives for the
+   text without it *)
+Lemma lf_lines_snoc_nl : forall m, lf_lines (m ++ [c_nl]) = split_all c_nl m.
+Proof.
+  intro m. unfold lf_lines. rewrite lf_split_all_snoc_sep, last_last.
+  cbn [is_nil]. apply removelast_last.
+Qed.
+
+(* a final line without a line feed *)
+Lemma lf_lines_last : forall l, l <> [] -> ~ In c_nl l -> lf_lines l = [l].
+Proof.
+  intros l Hne Hnin. unfold lf_lines.
+  assert (E : split_all c_nl l = [l]).
+  { clear Hne. induction l as [|x r IH]; [reflexivity|].
+    cbn [split_all].
+    assert (Hx : beqb x c_nl = false).
+    { apply beqb_neq. intro Hx. apply Hnin. left. exact Hx. }
+    rewrite Hx, IH; [reflexivity|]. intro Hin. apply Hnin. right. exact Hin. }
+  rewrite E. cbn [last]. destruct l as [|x r]; [contradiction Hne; reflexivity | reflexivity].
+Qed.
+
+Lemma lf_lines_no_nl : forall s l, In l (lf_lines s) -> ~ In c_nl l.
+Proof.
+  intros s l Hin. unfold lf_lines in Hin.
+  destruct (is_nil (last (split_all c_nl s) [])).
+  - apply (lf_split_all_no_sep c_nl s l).
+    destruct (split_all c_nl s) as [|h t] eqn:E; [destruct Hin|].
+    rewrite (app_removelast_last (l := h :: t) []) by discriminate.
+    apply in_or_app. left. exact Hin.
+  - exact (lf_split_all_no_sep c_nl s l Hin).
+Qed.
+
+(* MAIN: the lines of a text that ends in a line feed, joined again, are the
+   text: every byte is kept (carriage returns too), whatever the text *)
+Theorem lf_lines_join : forall m, join [c_nl] (lf_lines (m ++ [c_nl])) = m.
+Proof. intro m. rewrite lf_lines_snoc_nl. apply lf_join_split_all. Qed.
+
+Example lf_lines_ex1 : lf_lines [x61; c_nl] = [[x61]].
+Proof. reflexivity. Qed.
+Example lf_lines_ex2 : lf_lines [x61; c_nl; c_nl] = [[x61]; []].
+Proof. reflexivity. Qed.
+Example lf_lines_ex3 : lf_lines [x61] = [[x61]].
+Proof. reflexivity. Qed.
+Example lf_lines_ex4 : lf_lines [x61; c_cr; c_nl] = [[x61; c_cr]].
+Proof. reflexivity. Qed.
+Example lf_lines_ex5 : lf_lines [c_nl] = [[]].
+Proof. reflexivity. Qed.
+
+(* ------------------------------------------------------------------ *)
 
 Print Assumptions bytes_eqb_eq.
 Print Assumptions blt_total.
@@ -694,4 +827,7 @@ Print Assumptions split1s_app_nofirst.
 Print Assumptions unbe_be32.
 Print Assumptions scan_lines_app_nl.
 Print Assumptions scan_lines_last.
+Print Assumptions lf_lines_app_nl.
+Print Assumptions lf_lines_join.
+Print Assumptions lf_lines_no_nl.
 Print Assumptions is_prefix_spec.
